@@ -97,6 +97,31 @@ MUTANTS = [
     m("C06-lazy-args", "C06", "lazy-inverse@IterativeOperatorWInfo._matmat", "cola/linalg/algorithm_base.py", "Y, self.info = self.alg(self.A, X)", "Y, self.info = self.alg(X, self.A)"),
     m("C06-lstsq-shape", "C06", "inverse-rule@LSTSQSolve.__init__:shape", PINV, "super().__init__(A.dtype, (A.shape[-1], A.shape[-2]))", "super().__init__(A.dtype, (A.shape[-2], A.shape[-1]))"),
     m("C06-pinv-diag", "C06", "inverse-rule@pinv(Diagonal,Algorithm)", PINV, "def pinv(A: Diagonal, alg: Algorithm):\n    return Diagonal(1. / A.diag)", "def pinv(A: Diagonal, alg: Algorithm):\n    return Diagonal(A.diag)"),
+    # ---------------------------------------------------------------- C09
+    m("C09-eig-uses-adjoint", "C09", "dense-path@apply_unary(Callable,LinearOperator,Eig)", UNARY, "return V @ D @ inv(V)", "return V @ D @ V.H"),
+    m("C09-eigh-transpose", "C09", "dense-path@apply_unary(Callable,LinearOperator,Eigh)", UNARY, "return V @ D @ V.H", "return V @ D @ V.T"),
+    m("C09-eigh-uses-eig", "C09", "dense-path@apply_unary(Callable,LinearOperator,Eigh)", UNARY, "eigs, V = A.xnp.eigh(Adense)", "eigs, V = A.xnp.eig(Adense)"),
+    m("C09-diag-forgets-f", "C09", "function-rule@apply_unary(Callable,Diagonal,Algorithm)", UNARY, "return Diagonal(f(A.diag))", "return Diagonal(A.diag)"),
+    m("C09-blockdiag-multiplicities", "C09", "function-rule@apply_unary(Callable,BlockDiag,Algorithm)", UNARY, "return BlockDiag(*fAs, multiplicities=A.multiplicities)", "return BlockDiag(*fAs)"),
+    m("C09-scalar-rule", "C09", "function-rule@apply_unary(Callable,ScalarMul,Algorithm)", UNARY, "return f(A.c) * I_like(A)", "return f(A.c) * A"),
+    m("C09-transpose-rule", "C09", "function-rule@apply_unary(Callable,Transpose,Algorithm)", UNARY, "return Transpose(apply_unary(f, A.A, alg))", "return apply_unary(f, A.A, alg)"),
+    m("C09-exp-kronsum", "C09", "function-rule@exp(KronSum,Algorithm)", UNARY, "return Kronecker(*[exp(a, alg) for a in A.Ms])", "return KronSum(*[exp(a, alg) for a in A.Ms])"),
+    m("C09-isqrt-exponent", "C09", "function-rule@isqrt(LinearOperator,Algorithm)", UNARY, "return pow(A, -0.5, alg)", "return pow(A, 0.5, alg)"),
+    m("C09-log-uses-exp", "C09", "function-rule@log(LinearOperator,Algorithm)", UNARY, "return apply_unary(A.xnp.log, A, alg)", "return apply_unary(A.xnp.exp, A, alg)"),
+    m("C09-pow-alg-map", "C09", "pow-shortcut@pow:k=-1:algorithm-map", UNARY, "                case Eigh():\n                    new_alg = Cholesky()", "                case Eigh():\n                    new_alg = LU()"),
+    m("C09-pow-zero", "C09", "pow-shortcut@pow:k=0", UNARY, "        if k == 0:\n            return I_like(A)", "        if k == 0:\n            return A"),
+    m("C09-auto-lanczos-nonpsd", "C09", "auto-rule@apply_unary(Callable,LinearOperator,Auto):guard-implication", UNARY, "    elif not psd and small:\n        alg = Eig()", "    elif not psd and small:\n        alg = Eigh()"),
+    m("C09-pow-kron-alg", "C09", "forwarded@pow(Kronecker,Number,Algorithm)", UNARY, "return Kronecker(*[pow(a, alpha, alg) for a in A.Ms])", "return Kronecker(*[pow(a, alpha) for a in A.Ms])"),
+    # ---------------------------------------------------------------- C11
+    m("C11-symmetrise-transpose", "C11", "base-case@cholesky(LinearOperator)", DEC, "return Triangular(A.xnp.cholesky(A.to_dense()), lower=True)", "M = A.to_dense()\n    M = (M + M.T) / 2\n    return Triangular(A.xnp.cholesky(M), lower=True)"),
+    m("C11-silent-symmetrise-adjoint", "C11", "", DEC, "return Triangular(A.xnp.cholesky(A.to_dense()), lower=True)", "M = A.to_dense()\n    M = (M + M.conj().T) / 2\n    return Triangular(A.xnp.cholesky(M), lower=True)", silent=True),
+    m("C11-cholesky-upper-flag", "C11", "base-case@cholesky(LinearOperator):lower", DEC, "return Triangular(A.xnp.cholesky(A.to_dense()), lower=True)", "return Triangular(A.xnp.cholesky(A.to_dense()), lower=False)"),
+    m("C11-kron-reversed", "C11", "structural-factor@cholesky(Kronecker)", DEC, "return Kronecker(*[cholesky(Ai) for Ai in A.Ms])", "return Kronecker(*[cholesky(Ai) for Ai in reversed(A.Ms)])"),
+    m("C11-blockdiag-mult", "C11", "structural-factor@cholesky(BlockDiag)", DEC, "return BlockDiag(*[cholesky(Ai) for Ai in A.Ms], multiplicities=A.multiplicities)", "return BlockDiag(*[cholesky(Ai) for Ai in A.Ms])"),
+    m("C11-plu-roles-swapped", "C11", "plu-roles@plu(Kronecker)", DEC, "return Kronecker(*P), Kronecker(*L), Kronecker(*U)", "return Kronecker(*P), Kronecker(*U), Kronecker(*L)"),
+    m("C11-plu-flags", "C11", "base-case@plu(LinearOperator)", DEC, "P, L, U = Permutation(p), Triangular(L, lower=True), Triangular(U, lower=False)", "P, L, U = Permutation(p), Triangular(L, lower=True), Triangular(U, lower=True)"),
+    m("C11-plu-blockdiag-mult", "C11", "plu-roles@plu(BlockDiag)", DEC, "BD = lambda *args: BlockDiag(*args, multiplicities=A.multiplicities)  # noqa", "BD = lambda *args: BlockDiag(*args)  # noqa"),
+    m("C11-plu-diag", "C11", "plu-roles@plu(Diagonal|ScalarMul)", DEC, "return cola.ops.I_like(A), S, S", "return cola.ops.I_like(A), A, S"),
     # ---------------------------------------------------------------- C17
     m("C17-drop-set-state", "C17", "rng-bracket@np_fns.randn", NP, "    z = np.random.randn(*shape).astype(dtype)\n    np.random.set_state(old_state)\n", "    z = np.random.randn(*shape).astype(dtype)\n"),
     m("C17-early-return", "C17", "rng-bracket@np_fns.randn", NP, "    z = np.random.randn(*shape).astype(dtype)\n", "    z = np.random.randn(*shape).astype(dtype)\n    if dtype is None:\n        return z\n"),
